@@ -117,6 +117,26 @@ func ruleJournalWrite(p *Prog, r *Report, rule string) {
 }
 
 func runC04(p *Prog, r *Report) {
+	if want("C04.32") {
+		// a failed journal write latches: no later record is reported written (shared with C08/C12)
+		ruleStickyWriter(p, r, "C04.32")
+	}
+	if want("C04.31") {
+		// the startup sweep keeps every live file (shared with C07)
+		ruleStartupSweep(p, r, "C04.31")
+	}
+	if want("C04.30") {
+		// journal writer and reader agree on the chunk layout (shared with C12)
+		ruleJournalLayoutAgreement(p, r, "C04.30")
+	}
+	if want("C04.29") {
+		// a storage read error is not taken for journal damage (shared with C08/C12)
+		ruleIOErrorNotCorruption(p, r, "C04.29")
+	}
+	if want("C04.28") {
+		// a manifest delta replays to the version it was taken from (shared with C07)
+		ruleDeltaRecordIsPure(p, r, "C04.28")
+	}
 	syncOn := assumeSyncOn()
 
 	if want("C04.1") {
